@@ -1,13 +1,32 @@
 package sequence
 
-import "sync/atomic"
+import (
+	"sync"
+	"sync/atomic"
+)
 
 type Seq uint64
 
 var seq uint64
 
+// horizonM orders the beginning of a transaction (drawing its sequence number and registering it)
+// with the computation of the garbage collector's horizon.
+var horizonM sync.Mutex
+
 func Set(s Seq) {
 	atomic.CompareAndSwapUint64(&seq, 0, uint64(s))
+}
+
+// LockHorizon is held by Begin while it draws a sequence number and registers the transaction,
+// and by the garbage collector while it determines its horizon (the oldest open transaction or
+// a fresh number): a transaction is then never registered with a number below a horizon that
+// was computed without it, and transactions are registered in the order of their numbers.
+func LockHorizon() {
+	horizonM.Lock()
+}
+
+func UnlockHorizon() {
+	horizonM.Unlock()
 }
 
 func Next() Seq {
